@@ -13,6 +13,19 @@ class Livelock(Exception):
     pass
 
 
+def _engine_artifact(ctx):
+    """True for one artefact of the symbolic engine that cannot occur in CPython: asyncio.Queue.get() cleans up a
+    cancelled getter with deque.remove(), which raises ValueError when the getter was already woken; under CrossHair
+    the deque is a list-backed stand-in whose ValueError message is built with repr(future), that repr comes back
+    as a symbolic string, and C code turns it into TypeError('__repr__ returned non-string (type ...SymbolicStr)').
+    The task then ends with that TypeError instead of CancelledError (same clean-up, `finally` blocks run) and
+    asyncio reports "Task exception was never retrieved".  Plain replays never see it."""
+    e = ctx.get('exception')
+    if isinstance(e, TypeError) and e.args and isinstance(e.args[0], str):
+        return '__repr__ returned non-string' in e.args[0] and 'SymbolicStr' in e.args[0]
+    return False
+
+
 class VLoop(asyncio.AbstractEventLoop):
     def __init__(self):
         self._ready = collections.deque()
@@ -20,6 +33,7 @@ class VLoop(asyncio.AbstractEventLoop):
         self._now = 0  # microseconds
         self._seq = 0
         self.exc = []  # contexts passed to the exception handler
+        self.artifacts = 0
         self.steps = 0
         self.livelock = False
 
@@ -69,10 +83,13 @@ class VLoop(asyncio.AbstractEventLoop):
         pass
 
     def call_exception_handler(self, ctx):
+        if _engine_artifact(ctx):
+            self.artifacts += 1
+            return
         self.exc.append(ctx)
 
     def default_exception_handler(self, ctx):
-        self.exc.append(ctx)
+        self.call_exception_handler(ctx)
 
     # -- driving ---------------------------------------------------------------
     def run_iteration(self):
